@@ -36,6 +36,7 @@ fn main() {
         "bundle" => bundle::run(seed, n, replay, &mut out),
         "util" => cutil::run(seed, n, replay, &mut out),
         "C31" => c31::run(seed, n, replay, &mut out),
+        "C02" => c02::run(seed, n, replay, &mut out),
         other => {
             eprintln!("unknown component {other}");
             std::process::exit(2);
